@@ -162,6 +162,11 @@ func runC05(c *Ctx) {
 		}
 		k, isC := constInt(bo.Y)
 		call, isCall := bo.X.(*ssa.Call)
+		if !isC {
+			// mirrored: backoff.Stop == delay
+			k, isC = constInt(bo.X)
+			call, isCall = bo.Y.(*ssa.Call)
+		}
 		if !isC || k != -1 || !isCall || calleeOf(call) == nil || calleeOf(call).Name() != "NextBackOff" {
 			return false, false
 		}
@@ -316,7 +321,8 @@ func runC05(c *Ctx) {
 					if cc.Call.IsInvoke() && cc.Call.Method.Name() == "Done" {
 						kind = "ctx.Done"
 					}
-					if f := calleeOf(cc); f != nil && f.FullName() == "time.After" {
+					if f := calleeOf(cc); f != nil && (f.FullName() == "time.After" || f.FullName() == "time.NewTimer") {
+						// time.After(d), or the channel of a timer made with time.NewTimer(d)
 						kind = "timer"
 						waitDur = ws.toOuter(cc.Call.Args[0])
 					}
@@ -329,7 +335,7 @@ func runC05(c *Ctx) {
 						if cc.Call.IsInvoke() && cc.Call.Method.Name() == "Done" {
 							kind = "ctx.Done"
 						}
-						if f := calleeOf(cc); f != nil && f.FullName() == "time.After" {
+						if f := calleeOf(cc); f != nil && (f.FullName() == "time.After" || f.FullName() == "time.NewTimer") {
 							kind = "timer"
 							waitDur = cc.Call.Args[0]
 						}
@@ -390,15 +396,10 @@ func runC05(c *Ctx) {
 		hasBackoff := sliceHasCall(waitDur, func(f *types.Func) bool { return f.Name() == "NextBackOff" })
 		hasThrottle := false
 		for v := range backSlice(waitDur) {
-			if fa, ok := v.(*ssa.FieldAddr); ok {
-				if n := namedOf(fa.X.Type()); n != nil && n.Obj().Name() == "throttleRetry" && derefStruct(fa.X.Type()).Field(fa.Field).Name() == "delay" {
-					hasThrottle = true
-				}
-			}
-			if f, ok := v.(*ssa.Field); ok {
-				if n := namedOf(f.X.Type()); n != nil && n.Obj().Name() == "throttleRetry" {
-					hasThrottle = true
-				}
+			// the delay field of the throttling error type, identified by type (a time.Duration field of an error struct
+			// of this package), not by name
+			if isThrottleDelayAccessA3(v) {
+				hasThrottle = true
 			}
 		}
 		c.Check(hasBackoff, "wait duration depends on the exponential back-off", p.Pos(sel.Pos()), "NextBackOff in slice", "the waited duration does not depend on NextBackOff()")
@@ -583,6 +584,16 @@ func runC05(c *Ctx) {
 				order["obs"] = in
 			case "NewQueueSender":
 				order["queue"] = in
+			default:
+				// renamed constructors of the two senders this property identifies structurally: by result type
+				if sig, ok := g.Type().(*types.Signature); ok && sig.Recv() == nil && sig.Results().Len() >= 1 && g.Pkg() != nil && g.Pkg().Path() == pkgEHI {
+					switch rt := constructedTypeA3(p, g); {
+					case rt != nil && rt == retryT:
+						order["retry"] = in
+					case rt != nil && rt == timeoutSenderTypeA3(p):
+						order["timeout"] = in
+					}
+				}
 			}
 		})
 		seq := []string{"pusher", "timeout", "retry", "obs", "queue"}
